@@ -15,9 +15,13 @@ from .common import log
 EXE = "pvh_grammar"
 FOCI = ["decls", "loose", "types", "flat", "nest", "exprs", "ops", "lists", "commas", "args", "conds", "atoms", "undoc"]
 # foci that derive forms the documents do not show (generation 1 accepts them): rejection by generation 2 is not a
-# violation there, a crash or a wrong tree is
-UNCONSTRAINED = {"loose", "undoc"}
+# violation there, a crash or a wrong tree is.  (`loose` -- the last struct member without its comma -- is NOT among them:
+# tests/samples/valid/view_aliasing.pn is written that way.)
+UNCONSTRAINED = {"undoc"}
 PRODUCTIONS = grammar_cfgs.ALL
+# The delta lexer allocates its token buffers (>= 2 MB) per call; glibc serves such sizes by mmap/munmap, which serialises
+# the worker threads in the kernel.  Keeping them on the heap makes the replay 4x faster (measured); no effect on results.
+PVH_ENV = {"MALLOC_MMAP_THRESHOLD_": "33554432", "MALLOC_TRIM_THRESHOLD_": "2000000000", "MALLOC_TOP_PAD_": "268435456"}
 JAVA_CP = "/opt/veriftools/tla/tla2tools.jar:/opt/veriftools/tla/CommunityModules-deps.jar"
 
 
@@ -164,9 +168,19 @@ def diff_signature(expected, observed):
     if d is None:
         return None
     path, e, o = d
+    if path.endswith(".bytes") and o == "<absent>":
+        # the dump shows a string literal whose value cannot be read back (reported in detail as delta-xml `string:`)
+        return 'bytes in str: expected %s observed "<absent>"' % _brief(e)
     generic = re.sub(r"\[\d+\]", "[]", path)
     generic = ".".join(generic.split(".")[-3:])
     return "%s in %s: expected %s observed %s" % (generic, _context(expected, path), _brief(e), _brief(o))
+
+
+def rejection_shape(text):
+    """names the construct when a rejected valid module has a known shape, so that one defect gives one key"""
+    if re.search(r"\b(struct|word\d+) \w+ \{ [^}]*[^,{ ] \}", text):
+        return "last member of a struct/word not followed by a comma"
+    return None
 
 
 def panic_signature(msg):
@@ -199,69 +213,121 @@ def parse_coverage(path):
     return cov
 
 
+def run_tlc_focus(focus, tier, workers, timeout):
+    """One TLC run (with -coverage 1).  The CASE lines stay in the output file; they are streamed by derive()."""
+    cfg = "MC_PenneGrammar_%s_%s.cfg" % (focus, tier)
+    tag = "grammar-%s-%s" % (focus, tier)
+    out_path = os.path.join(common.WORK, tag + ".out")
+    metadir = os.path.join(common.WORK, "md-" + tag)
+    subprocess.run(["rm", "-rf", metadir])
+    cmd = ["timeout", str(timeout), "java", "-Xss1g", "-Xmx6g", "-XX:+UseParallelGC", "-cp", JAVA_CP, "tlc2.TLC",
+           "-workers", str(workers), "-metadir", metadir, "-cleanup", "-noGenerateSpecTE", "-coverage", "1",
+           "-config", os.path.join(common.SPEC, cfg), os.path.join(common.SPEC, "MC_PenneGrammar.tla")]
+    t0 = time.time()
+    with open(out_path, "w") as out:
+        p = subprocess.run(cmd, stdout=out, stderr=subprocess.STDOUT, cwd=common.SPEC)
+    subprocess.run(["rm", "-rf", metadir])
+    res = {"focus": focus, "output": out_path, "wall": time.time() - t0, "rc": p.returncode, "ok": False, "violated": None,
+           "states": 0, "transitions": 0, "coverage": {}}
+    rx = re.compile(r"^<P_(\w+) line \d+, col \d+ to line \d+, col \d+ of module PenneGrammar>: (\d+):(\d+)")
+    tail = []
+    with open(out_path, errors="replace") as f:
+        for line in f:
+            if line.startswith('<<"CASE"'):
+                continue
+            if line.startswith("<P_"):
+                m = rx.match(line)
+                if m:
+                    res["coverage"][m.group(1)] = max(res["coverage"].get(m.group(1), 0), int(m.group(3)))
+                continue
+            m = re.match(r"^(\d+) states generated, (\d+) distinct states found", line)
+            if m:
+                res["transitions"], res["states"] = int(m.group(1)), int(m.group(2))
+            m = re.match(r"^Error: Invariant (\S+) is violated", line)
+            if m:
+                res["violated"] = m.group(1)
+            if "Model checking completed. No error has been found." in line:
+                res["ok"] = True
+            if not line.startswith(("  ", "|", "<")):
+                tail.append(line.rstrip("\n"))
+                if len(tail) > 40:
+                    tail.pop(0)
+    res["tail"] = "\n".join(tail)
+    if p.returncode == 124:
+        raise common.ToolError("TLC timed out after %ss on focus %s" % (timeout, focus))
+    if not res["ok"] and res["violated"] is None:
+        log(res["tail"])
+        raise common.ToolError("TLC failed on focus %s (exit %s), see %s" % (focus, p.returncode, out_path))
+    return res
+
+
+def iter_cases(path):
+    with open(path) as f:
+        for line in f:
+            if line.strip():
+                yield json.loads(line)
+
+
 def derive(tier, workers=4, parallel=3, use_cache=True):
-    """Runs TLC on every focus.  Returns dict(cases=[{id, focus, toks, tree}], states, transitions, coverage, wall,
-    per_focus).  The result is cached under work/ (keyed by the text of the specification), so that C16 and C20 run
-    from the same derivation."""
+    """Runs TLC on every focus and writes the derived modules to work/grammar-cases-<tier>.ndjson, one
+    {id, focus, toks, tree, n} per line (streamed: a thorough run derives more than a million).
+    Returns dict(cases_path, count, states, transitions, coverage, per_focus, wall, cached).  The result is cached
+    (keyed by the text of the specification), so that C16 and C20 run from the same derivation."""
     os.makedirs(common.WORK, exist_ok=True)
     cache = os.path.join(common.WORK, "grammar-derived-%s.json" % tier)
     stamp = spec_stamp()
     if use_cache and os.path.exists(cache):
         try:
             d = json.load(open(cache))
-            if d.get("stamp") == stamp and os.path.exists(d["cases_path"]):
-                d["cases"] = common.read_ndjson(d["cases_path"])
+            if d.get("stamp") == stamp and os.path.exists(d["cases_path"]) and os.path.getsize(d["cases_path"]) == d.get("cases_bytes"):
                 d["cached"] = True
-                log("[tlc] derivation reused from %s (%d cases; specification unchanged)" % (cache, len(d["cases"])))
+                log("[tlc] derivation reused from %s (%d modules; specification unchanged)" % (cache, d["count"]))
                 return d
         except (ValueError, KeyError):
             pass
     t0 = time.time()
-
-    def one(focus):
-        cfg = "MC_PenneGrammar_%s_%s.cfg" % (focus, tier)
-        r = common.tlc("MC_PenneGrammar", cfg, workers=workers, timeout={"quick": 600, "thorough": 3000}[tier], heap="6g",
-                       coverage=True, tag="grammar-%s-%s" % (focus, tier))
-        cov = parse_coverage(r.output)
-        if r.ok:
-            try:
-                os.remove(r.output)
-            except OSError:
-                pass
-        return focus, r, cov
-
-    results = {}
+    timeout = {"quick": 600, "thorough": 3000}[tier]
     with concurrent.futures.ThreadPoolExecutor(max_workers=parallel) as ex:
-        for focus, r, cov in ex.map(one, FOCI):
-            results[focus] = (r, cov)
-    cases = []
+        results = {r["focus"]: r for r in ex.map(lambda f: run_tlc_focus(f, tier, workers, timeout), FOCI)}
+    cases_path = os.path.join(common.WORK, "grammar-cases-%s.ndjson" % tier)
     per_focus = {}
     coverage = {}
-    states = transitions = 0
-    for focus in FOCI:
-        r, cov = results[focus]
-        if not r.ok:
-            # TreeOK / ToksAgree violated: the generator disagrees with its own unparser -- a defect of the specification
-            log(r.tail[-2000:])
-            raise common.ToolError("invariant %s of PenneGrammar violated in focus %s: the specification is inconsistent" % (r.violated, focus))
-        per_focus[focus] = {"states": r.distinct, "transitions": r.generated, "cases": len(r.cases), "wall": round(r.wall, 1)}
-        states += r.distinct
-        transitions += r.generated
-        for k, v in cov.items():
-            coverage[k] = coverage.get(k, 0) + v
-        for c in r.cases:
-            cases.append({"id": len(cases), "focus": focus, "toks": c["toks"], "tree": expected_tree(c["tree"]), "n": c["n"]})
-        log("[tlc] focus %-6s %7d states, %7d modules derived, %.1fs" % (focus, r.distinct, len(r.cases), r.wall))
-    if not cases:
+    states = transitions = count = 0
+    with open(cases_path, "w") as out:
+        for focus in FOCI:
+            r = results[focus]
+            if not r["ok"]:
+                # TreeOK / ToksAgree violated: the generator disagrees with its own unparser -- a defect of the specification
+                log(r["tail"][-2000:])
+                raise common.ToolError("invariant %s of PenneGrammar violated in focus %s: the specification is inconsistent" % (r["violated"], focus))
+            n = 0
+            with open(r["output"], errors="replace") as f:
+                for line in f:
+                    if not line.startswith('<<"CASE"'):
+                        continue
+                    d = common._decode_print(line.rstrip("\n"))
+                    if not d or not isinstance(d[1], dict):
+                        raise common.ToolError("unreadable CASE line in %s" % r["output"])
+                    c = d[1]
+                    out.write(json.dumps({"id": count, "focus": focus, "toks": c["toks"], "tree": expected_tree(c["tree"]), "n": c["n"]},
+                                         separators=(",", ":")))
+                    out.write("\n")
+                    count += 1
+                    n += 1
+            os.remove(r["output"])
+            per_focus[focus] = {"states": r["states"], "transitions": r["transitions"], "cases": n, "wall": round(r["wall"], 1)}
+            states += r["states"]
+            transitions += r["transitions"]
+            for k, v in r["coverage"].items():
+                coverage[k] = coverage.get(k, 0) + v
+            log("[tlc] focus %-6s %8d states, %8d modules derived, %.1fs" % (focus, r["states"], n, r["wall"]))
+    if count == 0:
         raise common.ToolError("TLC derived no module")
-    cases_path = os.path.join(common.WORK, "grammar-cases-%s.ndjson" % tier)
-    common.write_ndjson(cases_path, cases)
-    d = {"stamp": stamp, "cases_path": cases_path, "states": states, "transitions": transitions, "coverage": coverage,
-         "per_focus": per_focus, "wall": round(time.time() - t0, 1)}
+    d = {"stamp": stamp, "cases_path": cases_path, "cases_bytes": os.path.getsize(cases_path), "count": count, "states": states,
+         "transitions": transitions, "coverage": coverage, "per_focus": per_focus, "wall": round(time.time() - t0, 1)}
     json.dump(d, open(cache, "w"))
-    d["cases"] = cases
     d["cached"] = False
-    log("[tlc] %d modules derived exhaustively in %d foci, %d states, %.1fs" % (len(cases), len(FOCI), states, d["wall"]))
+    log("[tlc] %d modules derived exhaustively in %d foci, %d states, %.1fs" % (count, len(FOCI), states, d["wall"]))
     return d
 
 
@@ -345,7 +411,7 @@ def run_corpus(tag):
     lst = os.path.join(common.WORK, "grammar-corpus-%s.list" % tag)
     out = os.path.join(common.WORK, "grammar-corpus-%s.ndjson" % tag)
     open(lst, "w").write("\n".join(files) + "\n")
-    common.pvh(["corpus", lst, out], exe_name=EXE)
+    common.pvh(["corpus", lst, out], exe_name=EXE, env=PVH_ENV)
     obs = common.read_ndjson(out)
     for o in obs:
         o["rel"] = os.path.relpath(o["file"], common.REPO)
